@@ -20,7 +20,9 @@ RULE = ("A case is a history over one fake node reached through the real Session
         "answer the i-th held request (rows echoing the tag / void / 6 server errors with a scripted retry policy / "
         "never / undecodable body / protocol error / negative length / close / reset), advance the virtual clock "
         "(client timeouts orphan streams, blocked borrowers give up after 2 s), kill a pooled connection, plus a "
-        "schedule tape.  At the end every held request is answered.  Non-trivial: some stream id was used by two "
+        "schedule tape; the 'retrywait' part fills every stream id, keeps 1-3 more senders waiting, answers some requests "
+        "with errors the scripted policy retries and lets 1 s client timeouts fire while the retries wait for an id.  "
+        "At the end every held request is answered.  Non-trivial: some stream id was used by two "
         "requests of the same connection AND a response arrived for a stream whose request had already timed out; or "
         "the ids of a connection were exhausted (a send had to wait).  Distinct by case digest.")
 ASSUMPTIONS = ["network, clock, executor and event loop are simulated (sim/); Cluster, Session, pools, connections, "
@@ -98,11 +100,13 @@ class C09Observer(SP.Observer):
             s.delivery_checked = True
             if s.late or s.answered not in DELIVERABLE or s.conn.is_closed or s.conn.is_defunct:
                 continue
-            recs = [r for r in s.conn.handlers if r.stream == s.stream and r.tag == s.tag and r.t <= s.t_answered]
+            recs = [r for r in s.conn.handlers if r.stream == s.stream and r.tag == s.tag and r.seq < s.recs_before]
             if recs and not recs[-1].calls:
+                # an earlier user of the same stream whose future ended in a client timeout although that attempt
+                # had been answered => its timeout hit the recycled stream id
                 why = "stream-orphaned-by-another-request's-timeout" if any(
-                    f.tag != s.tag and f.future is not None and f.pair.eb and f.future._req_id == s.stream and
-                    f.future._connection is s.conn for f in m.futs.values()) else "unknown"
+                    o.conn is s.conn and o.stream == s.stream and o.seq < s.seq and o.tag != s.tag and
+                    o.answered is not None and _state_of(m, o) == "timed-out" for o in m.sreqs) else "unknown"
                 ctx.fail(["C09.delivery.lost", why],
                          "%s: the server answered request tag=%s on connection #%d stream %d (%s) while its future was "
                          "still waiting, but the handler registered for that request was never invoked (stream now %s)" % (
@@ -284,6 +288,38 @@ def s_v2max():
     })
 
 
+def s_retrywait():
+    """retries that have to wait for a free stream id: every id busy, several senders waiting, error responses the
+    policy answers with RETRY, client timeouts shorter than the 2 s a borrower waits"""
+    tail = st.one_of(
+        st.tuples(st.just("answer"), st.integers(0, 5), st.sampled_from(["overloaded", "unavailable", "rows", "rows", "void"])),
+        st.tuples(st.just("answer"), st.integers(0, 5), st.sampled_from(["overloaded", "read_timeout", "rows"])),
+        st.tuples(st.just("send"), st.sampled_from([1, 1, 3, 0])),
+        st.tuples(st.just("advance"), st.sampled_from([0.35, 0.75, 1.1, 1.1, 2.5])),
+    )
+
+    @st.composite
+    def build(draw):
+        case = draw(SP.s_case(st, "c09", "blocking", [3, 4, 4, 5, 2], mifs=(3, 3, 4), thrs=(100, 100, 3),
+                              extra={"events": st.just([])}))
+        cap = case["mif"] - 1 if case["pv"] >= 3 else case["mif"]
+        n = cap + draw(st.integers(1, 3))
+        ev = [["send", draw(st.sampled_from([1, 1, 1, 3, 2]))] for _ in range(n)]
+        # some of the requests that got a stream are answered (errors => the retry joins the waiting senders) ...
+        for _ in range(draw(st.integers(1, cap))):
+            ev.append(["answer", draw(st.integers(0, cap - 1)),
+                       draw(st.sampled_from(["overloaded", "overloaded", "unavailable", "read_timeout", "rows", "void"]))])
+        # ... the 1 s client timeouts fire while the 2 s borrowers are still waiting ...
+        ev.append(["advance", draw(st.sampled_from([0.75, 1.1, 1.1, 1.6]))])
+        # ... and everything goes on
+        ev += [list(e) for e in draw(st.lists(tail, min_size=2, max_size=12))]
+        case["events"] = ev
+        case["decisions"] = [["retry", None]] * draw(st.integers(1, 4))
+        case["poolcfg"] = {"core": 1, "max": 1, "min_req": 0, "max_req": 100}
+        return case
+    return build()
+
+
 def parts(tier):
     return [
         hyp_part("v3plus", lambda: s_case("blocking", [3, 4, 4, 5]), interpret, tier, quick=110, thorough=1500,
@@ -292,6 +328,7 @@ def parts(tier):
                  quick_shards=2, thorough_shards=3),
         hyp_part("grow", lambda: s_case("blocking", [3, 4], grow=True), interpret, tier, quick=8, thorough=80,
                  quick_shards=1, thorough_shards=2),
+        hyp_part("retrywait", s_retrywait, interpret, tier, quick=100, thorough=1200, quick_shards=2, thorough_shards=3),
         hyp_part("v2max", s_v2max, interpret, tier, quick=12, thorough=120, quick_shards=1, thorough_shards=2),
         hyp_part("locks", lambda: s_case("locks", [2, 3, 4, 4, 5], mifs=(3, 3, 4, 4, 5, 8)), interpret, tier, quick=40, thorough=700,
                  quick_shards=1, thorough_shards=3),
